@@ -326,12 +326,13 @@ func slice(i *interpreter, x, lo, hi, max value) value {
 // boundFor resolves a slice bound that must satisfy lo <= v <= hi.
 func (i *interpreter) boundFor(v value, lo, hi int64, msg string) int64 {
 	if s, ok := v.(symv); ok {
-		w := s.t.W
+		w := 64
+		t := i.cx.Resize(s.t, 64, kindSigned(s.k))
 		var inRange *smt.Term
 		if kindSigned(s.k) {
-			inRange = i.cx.And(i.cx.Sle(i.cx.BV(uint64(lo), w), s.t), i.cx.Sle(s.t, i.cx.BV(uint64(hi), w)))
+			inRange = i.cx.And(i.cx.Sle(i.cx.BV(uint64(lo), w), t), i.cx.Sle(t, i.cx.BV(uint64(hi), w)))
 		} else {
-			inRange = i.cx.Ule(s.t, i.cx.BV(uint64(hi), w))
+			inRange = i.cx.Ule(t, i.cx.BV(uint64(hi), w))
 		}
 		if !i.decide(inRange) {
 			panic(targetPanic{"runtime error: " + fmt.Sprintf(msg, "sym", hi)})
@@ -360,16 +361,45 @@ func (i *interpreter) indexFor(idx value, n int, write bool) int64 {
 }
 
 func (i *interpreter) checkIndex(s symv, n int) {
-	w := s.t.W
+	// compare at 64 bits so that a table as large as the index type's range
+	// (e.g. [256]T indexed by a byte) does not wrap the bound
+	t := i.cx.Resize(s.t, 64, kindSigned(s.k))
+	w := 64
 	var ok *smt.Term
 	if kindSigned(s.k) {
-		ok = i.cx.And(i.cx.Sle(i.cx.BV(0, w), s.t), i.cx.Slt(s.t, i.cx.BV(uint64(n), w)))
+		ok = i.cx.And(i.cx.Sle(i.cx.BV(0, w), t), i.cx.Slt(t, i.cx.BV(uint64(n), w)))
 	} else {
-		ok = i.cx.Ult(s.t, i.cx.BV(uint64(n), w))
+		ok = i.cx.Ult(t, i.cx.BV(uint64(n), w))
 	}
 	if !i.decide(ok) {
 		panic(targetPanic{fmt.Sprintf("runtime error: index out of range [symbolic] with length %d", n)})
 	}
+}
+
+// symElemPtr is &xs[idx] for a symbolic idx over scalar elements: loads
+// become if-then-else chains, stores concretise the index.
+type symElemPtr struct {
+	xs  []value
+	idx symv
+}
+
+// symPtr returns a symbolic element pointer if idx is symbolic and xs holds
+// scalars of one integer kind (after the bounds check); otherwise nil.
+func (i *interpreter) symPtr(xs []value, idx value) *symElemPtr {
+	s, ok := idx.(symv)
+	if !ok || len(xs) == 0 {
+		return nil
+	}
+	var kind types.BasicKind
+	for j, e := range xs {
+		k, isInt := kindOf(e)
+		if !isInt || (j > 0 && k != kind) {
+			return nil
+		}
+		kind = k
+	}
+	i.checkIndex(s, len(xs))
+	return &symElemPtr{xs: xs, idx: s}
 }
 
 // readIndex reads xs[idx]; a symbolic index over scalar elements becomes an
@@ -411,6 +441,17 @@ func (i *interpreter) readIndex(xs []value, idx value) value {
 func (i *interpreter) selectChain(xs []value, idx *smt.Term) *smt.Term {
 	cx := i.cx
 	w := idx.W
+	// an index that is itself a table lookup result (ite tree over constants):
+	// push this lookup to its leaves
+	if r, ok := cx.MapLeaves(idx, func(l *smt.Term) *smt.Term {
+		k := l.Uint64()
+		if k >= uint64(len(xs)) {
+			k = 0 // excluded by the preceding bounds check
+		}
+		return i.term(xs[k])
+	}); ok {
+		return r
+	}
 	res := i.term(xs[len(xs)-1])
 	for j := len(xs) - 2; j >= 0; j-- {
 		e := i.term(xs[j])
@@ -1053,6 +1094,9 @@ func unop(i *interpreter, instr *ssa.UnOp, x value) value {
 			return -x
 		}
 	case token.MUL:
+		if sp, ok := x.(*symElemPtr); ok {
+			return i.readIndex(sp.xs, sp.idx)
+		}
 		if x.(*value) == nil {
 			panic(targetPanic{"runtime error: invalid memory address or nil pointer dereference"})
 		}
